@@ -7,10 +7,14 @@
    has returned from run(), i.e. the last Arc of the wrapped sink is gone (its Drop runs; with
    C06 a wrapped buffered sink then flushes its remaining lines). *)
 Require Import Cadence.Base.Prelude.
+Require Import Cadence.Model.Writer.
+Require Import Cadence.Proofs.WriterBase.
+Require Import Cadence.Proofs.WriterRun.
 Require Import Cadence.Model.Queue.
 Require Import Cadence.Proofs.QueueInv.
 Require Import Cadence.Proofs.QueueLive.
 Require Import Cadence.Proofs.QueueV0.
+Require Import Cadence.Proofs.StackProofs.
 
 (* in every reachable state without a live handle — whatever the capacity, however full the
    queue was at the last drop, whether the marker sits in the channel, with the helper thread
@@ -43,6 +47,23 @@ Theorem c09_drained_before_exit : forall cap handler evs s rs,
   q_handles s = 0 /\ q_chan s = [] /\ q_pill_pending s = false /\
   map fst (q_delivered s) = seq 0 (q_accepted s).
 Proof. exact reach_exited. Qed.
+
+(* ... and releases the wrapped sink - end to end with a BUFFERED wrapped sink (the documented
+   production stack client -> QueuingMetricSink -> BufferedUdp/UnixMetricSink): once the worker has
+   exited, the buffered sink has been driven with exactly the accepted metrics 0 .. n-1 in acceptance
+   order ([pay i] = text of the metric accepted as number i) and then dropped ([Writer.run] ends
+   with the drop, which flushes); with a socket that accepts every datagram each of these emits
+   returned Ok, every metric that fits a datagram was written exactly once in whole lines in that
+   order, every oversized one exactly once on its own - nothing accepted is left in any buffer *)
+Theorem c09_stack : forall cap handler evs s rs c e pay rs' w,
+  Queue.run true (init_q cap handler) evs = Some (s, rs) -> q_wk s = WExited ->
+  Writer.run c e [] (delivered_ops pay (q_delivered s)) = (rs', w) ->
+  map fst (q_delivered s) = seq 0 (q_accepted s) /\
+  Forall2 (fun i x => x = OOk (length (pay i))) (seq 0 (q_accepted s)) rs' /\
+  filter (nzb e) (sentL (lg w)) =
+    filter (nzb e) (filter (fitg c e) (map (fun i => (i, pay i)) (seq 0 (q_accepted s)))) /\
+  sentA (lg w) = filter (fun g => negb (fitg c e g)) (map (fun i => (i, pay i)) (seq 0 (q_accepted s))).
+Proof. exact stack_conservation. Qed.
 
 (* exactly one stop marker exists once no handle is left, none before (channel + helper +
    worker): the worker is told to stop once, and only by the last drop *)
